@@ -793,19 +793,25 @@ func cmdCheck(args []string) int {
 		exit = 1
 	}
 	if _, has := realLegs[id]; has {
+		ktried := map[class]int{}
+		kfailed := map[class]string{}
 		for _, kv := range kviol {
 			c := class{"kernel:" + kv.Clause, kv.Key}
-			if seen[c] {
+			if seen[c] || ktried[c] >= 4 {
 				continue
 			}
-			seen[c] = true
+			ktried[c]++
 			name := fmt.Sprintf("%s-kernel-%s-%d.json", id, sanitize(kv.Clause+"-"+kv.Key), kv.History.Seed)
 			path := filepath.Join(replayDir, name)
 			rfb, _ := json.MarshalIndent(map[string]interface{}{"property": id, "kernel": true, "history": kv.History, "violation": Violation{kv.Clause, kv.Key, kv.Detail}, "tree": tree}, "", " ")
 			os.WriteFile(path, rfb, 0o644)
-			// a kernel-leg violation is reported only if re-executing the history shows it again, twice
-			okN := 0
-			for i := 0; i < 2; i++ {
+			// a kernel-leg violation is reported only if re-executing its history shows it
+			// again, twice. The leg is not simulated: an outcome that depends on a real
+			// race need not recur at once, so a history is re-executed up to six times
+			// and up to four histories of a class are tried.
+			okN, execs := 0, 0
+			for execs < 6 && okN < 2 && !(execs >= 3 && okN == 0) {
+				execs++
 				if vs, err := replayKernelLeg(id, kv.History); err == nil {
 					for _, v2 := range vs {
 						if v2.Clause == kv.Clause && v2.Key == kv.Key {
@@ -816,12 +822,12 @@ func cmdCheck(args []string) int {
 				}
 			}
 			if okN < 2 {
-				// the kernel leg is not simulated: a history whose outcome depends on a
-				// real race need not recur; such a class is not reported
 				os.Remove(path)
-				kernelUnreproduced = append(kernelUnreproduced, fmt.Sprintf("%s/%s (seed %d, %d/2)", kv.Clause, kv.Key, kv.History.Seed, okN))
+				kfailed[c] = fmt.Sprintf("%s/%s (seed %d, %d/%d)", kv.Clause, kv.Key, kv.History.Seed, okN, execs)
 				continue
 			}
+			seen[c] = true
+			delete(kfailed, c)
 			v := Violation{"kernel:" + kv.Clause, kv.Key, kv.Detail}
 			if kf := matchKnown(known, id, v); kf != nil {
 				fmt.Printf("KNOWN-FINDING: property=%s %s [%s/%s] replay=%s\n", id, kf.text, kf.clause, kf.key, path)
@@ -833,6 +839,12 @@ func cmdCheck(args []string) int {
 			reported = append(reported, map[string]interface{}{"known": false, "clause": v.Clause, "key": v.Key, "replay": path, "detail": abbreviate(v.Detail, 400)})
 			exit = 1
 		}
+		var kf []string
+		for _, msg := range kfailed {
+			kf = append(kf, msg)
+		}
+		sort.Strings(kf)
+		kernelUnreproduced = append(kernelUnreproduced, kf...)
 	}
 	if detMismatch && exit == 0 {
 		fatal2("determinism self-check failed for run indices %v", total.DetMismatch)
@@ -996,18 +1008,21 @@ func cmdReplay(args []string) int {
 		Violation Violation `json:"violation"`
 	}
 	if json.Unmarshal(raw, &kr) == nil && kr.Kernel {
-		vs, err := replayKernelLeg(kr.Property, kr.History)
-		if err != nil {
-			fatal2("%v", err)
-		}
-		for _, v := range vs {
-			fmt.Printf("  violation clause=%s key=%s: %s\n", v.Clause, v.Key, abbreviate(v.Detail, 800))
-			if v.Clause == kr.Violation.Clause && v.Key == kr.Violation.Key {
-				fmt.Printf("VIOLATION property=%s replay=%s\n", kr.Property, path)
-				return 1
+		// not simulated: an outcome that depends on a real race may need several executions
+		for attempt := 1; attempt <= 6; attempt++ {
+			vs, err := replayKernelLeg(kr.Property, kr.History)
+			if err != nil {
+				fatal2("%v", err)
 			}
+			for _, v := range vs {
+				fmt.Printf("  violation clause=%s key=%s: %s\n", v.Clause, v.Key, abbreviate(v.Detail, 800))
+				if v.Clause == kr.Violation.Clause && v.Key == kr.Violation.Key {
+					fmt.Printf("VIOLATION property=%s replay=%s\n", kr.Property, path)
+					return 1
+				}
+			}
+			fmt.Printf("execution %d of the history: the recorded violation did not occur\n", attempt)
 		}
-		fmt.Println("recorded violation did not occur")
 		return 0
 	}
 	var rf ReplayFile
